@@ -410,6 +410,18 @@ import numpy as np  # noqa: E402
 import pytato as pt  # noqa: E402
 from pyvc.den import ArrayModel  # noqa: E402
 
+def _distribute(d, k):
+    """apply_distributive_property_to_einsums, distributing over operand k of
+    every einsum that has one (the user's decision callback)."""
+    from pytato.transform.einsum_distributive_law import (
+        DoDistribute, DoNotDistribute, apply_distributive_property_to_einsums)
+
+    def how(e):
+        return DoDistribute(ioperand=k) if k < len(e.args) \
+            else DoNotDistribute()
+    return apply_distributive_property_to_einsums(d, how)
+
+
 def _transformations():
     """name -> callable(DictOfNamedArrays) -> DictOfNamedArrays"""
     import pytato.transform as T
@@ -432,6 +444,8 @@ def _transformations():
         "inline_calls": lambda d: pt.inline_calls(
             pt.tag_all_calls_to_be_inlined(d)),
         "lower_to_index_lambda": lower_all,
+        **{f"distribute-operand-{k}": (lambda d, k=k: _distribute(d, k))
+           for k in (0, 1, 2)},
         "dedup+mpms+dce": lambda d: pt.eliminate_dead_code(
             pt.materialize_with_mpms(T.deduplicate(d))),
     }
@@ -503,7 +517,37 @@ def _special_programs():
         u = e + t
         v = (u * e).tagged(ImplStored())
         return {"o": 3 * u + v, "p": (u - 1) * (v + t)}
+    def einsum_shared_broadcast():
+        # one array with unit axes used by two einsums that broadcast
+        # *different* axes of it, and once squeezed / once plain
+        n = pt.make_size_param("n")
+        u = pt.make_placeholder("u", (1, n, 1), np.float64)
+        a = pt.make_placeholder("a", (3, n, 1), np.float64)
+        b = pt.make_placeholder("b", (1, n, 4), np.float64)
+        c = pt.make_placeholder("c", (3, n, 4), np.float64)
+        v = pt.make_placeholder("v", (1, 4), np.float64)
+        w = pt.make_placeholder("w", (3, 4), np.float64)
+        return {"o": pt.einsum("ijk,ijk->ijk", u, a),
+                "p": pt.einsum("ijk,ijk->ijk", u, b),
+                "q": pt.einsum("ijk,ijk->ik", u, c),
+                "r": pt.einsum("ij,ij->ij", v, w) + v,
+                "s": pt.einsum("ij,ij,ij->j", v, w, v)}
+
+    def einsum_distribute():
+        # operands of the distributed-over sum that have no operands of
+        # their own (constant-filled), scaled and plain; rectangular matrix
+        n = pt.make_size_param("n")
+        m = pt.make_placeholder("m", (3, 4), np.float64)
+        sq = pt.make_placeholder("sq", (4, 4), np.float64)
+        x = pt.make_placeholder("x", (4,), np.float64)
+        y = pt.make_placeholder("y", (4,), np.float64)
+        return {"o": m @ (x + pt.ones(4)), "p": sq @ (x - 2 * pt.full(4, 3.5)),
+                "q": m @ ((x + y) * 2 - pt.zeros(4)),
+                "r": pt.einsum("ij,j->i", m, (x + y) / 3 + pt.ones(4) * 2),
+                "u": pt.einsum("ij,j->i", sq, x * 2 + pt.ones(4)) + y}
     return {"rolls": rolls, "csr_in_call": csr_in_call,
+            "einsum_shared_broadcast": einsum_shared_broadcast,
+            "einsum_distribute": einsum_distribute,
             "shared_datawrappers": shared_datawrappers,
             "unused_parts": unused_parts,
             "adv_index_mixed": adv_index_mixed, "mpms_chain": mpms_chain,
@@ -582,7 +626,8 @@ class TransformValues(Contract):
                  for i in range(16 if tier != "thorough" else 160)]
         progs += list(_special_programs())
         return [dict(label=f"{t};{p}", transform=t, prog=p)
-                for t in _transformations() for p in progs]
+                for t in _transformations() for p in progs
+                if not t.startswith("distribute-")]
 
     def canaries(self, tier):
         return [(dict(label="deduplicate;rolls", transform="deduplicate",
@@ -793,3 +838,107 @@ for k in raw:
         reproduced(f"{{tname}} changed output '{{k}}': {{got.tolist()!r:.200}} vs {{want.tolist()!r:.200}}")
 not_reproduced("outputs agree on the sampled inputs")
 '''
+
+
+# {{{ C06: the einsum rewrites on whole programs
+
+@contract
+class EinsumRewritePrograms(TransformValues):
+    """C06 by translation validation: apply_distributive_property_to_einsums
+    (for each choice of the operand to distribute over) and
+    rewrite_einsums_with_no_broadcasts run on seeded random DAGs and on
+    programs with shared broadcast operands / constant-filled summands; the
+    result is proved to denote what the program denotes (all sizes, inputs
+    and indices).  The per-method contracts of c06_einsum.py see one node at
+    a time; sharing between einsums and operand kinds outside their table
+    show only here."""
+    name = "einsum.programs"
+    properties = ("C06",)
+    props_for_all_clauses = ("C06",)
+    functions = ("pytato.transform.einsum_distributive_law:"
+                 "apply_distributive_property_to_einsums",
+                 "pytato.transform.einsum_distributive_law:"
+                 "EinsumDistributiveLawMapper.map_index_lambda",
+                 "pytato.transform.remove_broadcasts_einsum:"
+                 "rewrite_einsums_with_no_broadcasts",
+                 "pytato.transform.remove_broadcasts_einsum:"
+                 "EinsumWithNoBroadcastsRewriter.get_cache_key")
+
+    def instances(self, tier):
+        import os
+        base = int(os.environ.get("VERIF_SEED", "1") or 1) * 100000
+        progs = [f"random:{base + i}"
+                 for i in range(8 if tier != "thorough" else 80)]
+        progs += ["einsum_shared_broadcast", "einsum_distribute"]
+        ts = ["rewrite_einsums_with_no_broadcasts", "distribute-operand-0",
+              "distribute-operand-1", "distribute-operand-2"]
+        return [dict(label=f"{t};{p}", transform=t, prog=p)
+                for t in ts for p in progs]
+
+    def canaries(self, tier):
+        return [(dict(label="rewrite_einsums_with_no_broadcasts;"
+                            "einsum_shared_broadcast",
+                      transform="rewrite_einsums_with_no_broadcasts",
+                      prog="einsum_shared_broadcast"), "output-plus-one",
+                 "transform.value.")]
+
+    def run(self, h, inst):
+        if not inst["transform"].startswith("distribute-"):
+            return TransformValues.run(self, h, inst)
+        # The distributive law itself (sum_j M_ij (x_j + y_j) = sum_j M_ij x_j
+        # + sum_j M_ij y_j) is linearity of the reduction, which the
+        # pointwise denotation keeps uninterpreted: z3 cannot decide it.
+        # Bounded stand-in, labelled as such: both graphs are evaluated with
+        # the reference evaluator on sampled inputs (three sizes).
+        from contracts.c07_kernel import random_program
+        from pyvc.replaylib import eval_array
+        prog, T_ = inst["prog"], inst["transform"]
+        if prog.startswith("random:"):
+            outs = random_program(int(prog.split(":")[1]), lambda k, x: x)
+        else:
+            outs = _special_programs()[prog]()
+        d_in = pt.transform.deduplicate(pt.make_dict_of_named_arrays(outs))
+        try:
+            d_out = _transformations()[T_](d_in)
+        except (NotImplementedError, RuntimeError) as e:
+            explicit = isinstance(e, NotImplementedError) or \
+                "Cannot distribute" in str(e)
+            h.oblige(f"einsum.programs.decline-is-explicit[{T_}]",
+                     z3.BoolVal(explicit), info=str(e)[:120])
+            return
+        except Exception as e:  # noqa: BLE001
+            h.fail(f"einsum.programs.no-exception[{T_}]",
+                   f"{type(e).__name__}: {e}")
+            return
+        h.oblige(f"einsum.programs.names[{T_}]",
+                 z3.BoolVal(list(d_out) == list(d_in)))
+        bad = None
+        for nsize, seed in ((3, 1), (1, 2), (5, 3)):
+            rng = np.random.default_rng(seed)
+            data = {"n": nsize}
+            for name in d_in:
+                for i in _inputs_by_identity(d_in[name].expr):
+                    if isinstance(i, pt.Placeholder) and i.name not in data:
+                        shp = tuple(nsize if not isinstance(s_, int) else s_
+                                    for s_ in i.shape)
+                        data[i.name] = rng.integers(-4, 5, shp).astype(
+                            i.dtype)
+            for name in d_in:
+                try:
+                    want = eval_array(d_in[name].expr, data)
+                    got = eval_array(d_out[name].expr, data)
+                except Exception as e:  # noqa: BLE001
+                    bad = f"{name}: evaluation of the result raises " \
+                          f"{type(e).__name__}: {e}"
+                    break
+                if got.shape != want.shape or not np.allclose(
+                        got, want, equal_nan=True):
+                    bad = f"{name} (n={nsize}): {got.tolist()!r:.120} vs " \
+                          f"{want.tolist()!r:.120}"
+                    break
+            if bad:
+                break
+        h.oblige(f"einsum.programs.value-on-sampled-inputs[{T_}]",
+                 z3.BoolVal(bad is None), info=bad)
+
+# }}}
